@@ -34,6 +34,9 @@ def verdicts(case, res):
 
 
 def run_case(case, ctx):
+    if case.get("real"):
+        PC.judge_real(case, ctx, "FactoryFunctorPool" if case["pool"] == "factory" else "FunctorPool", True, False)
+        return
     res = P.run_pool_case(case)
     labs = P.labels_for(case, res)
     ctx.label(*labs)
@@ -63,4 +66,5 @@ def enumerations(tier):
 
 
 def strategies(tier):
-    return [("drawn-schedules", PC.pool_strategy(max_calls=1), 200000 if tier == "thorough" else 6000)]
+    return [("drawn-schedules", PC.pool_strategy(max_calls=1), 200000 if tier == "thorough" else 6000),
+            ("real-processes", PC.real_strategy(PC.pool_strategy(max_calls=1)), 300 if tier == "thorough" else 14, {"shrink": False})]
